@@ -3,6 +3,8 @@ package qframe
 // Shared harness helpers (package qframe, injected by overlay).
 
 import (
+	"math"
+
 	"github.com/tobgu/qframe/config/newqf"
 	"github.com/tobgu/qframe/internal/index"
 	"github.com/tobgu/qframe/internal/vx"
@@ -174,4 +176,109 @@ func vxEnumRank(s string) int {
 		}
 	}
 	return -1
+}
+
+// vxCellSame compares the cell of column name at logical row `row` of f (read
+// through the typed view) with physical cell p of the harness copy c.
+func vxCellSame(f QFrame, name string, c vxCol, row, p int) bool {
+	switch c.typ {
+	case "int":
+		v, err := f.IntView(name)
+		if err != nil {
+			return false
+		}
+		return v.ItemAt(row) == c.i[p]
+	case "float":
+		v, err := f.FloatView(name)
+		if err != nil {
+			return false
+		}
+		return math.Float64bits(v.ItemAt(row)) == math.Float64bits(c.f[p])
+	case "bool":
+		v, err := f.BoolView(name)
+		if err != nil {
+			return false
+		}
+		return v.ItemAt(row) == c.b[p]
+	case "string":
+		v, err := f.StringView(name)
+		if err != nil {
+			return false
+		}
+		p = vxConc(p, len(c.s))
+		s := v.ItemAt(row)
+		if c.null[p] {
+			return s == nil
+		}
+		return s != nil && *s == c.s[p]
+	case "enum":
+		v, err := f.EnumView(name)
+		if err != nil {
+			return false
+		}
+		p = vxConc(p, len(c.s))
+		s := v.ItemAt(row)
+		if c.null[p] {
+			return s == nil
+		}
+		return s != nil && *s == c.s[p]
+	}
+	panic("vxCellSame: type " + c.typ)
+}
+
+// vxCheckFrame asserts that f has exactly the given columns (order, type) and
+// that logical row r shows physical row ix[r] of every column.
+func vxCheckFrame(f QFrame, names []string, cols []vxCol, ix []uint32, label string) {
+	vx.Check(f.Err == nil, label+": no error")
+	vx.Check(f.Len() == len(ix), label+": row count")
+	got := f.ColumnNames()
+	vx.Check(len(got) == len(names), label+": column count")
+	for k := range names {
+		vx.Check(k < len(got) && got[k] == names[k], label+": column name/order")
+	}
+	for k, n := range names {
+		for r := range ix {
+			vx.Check(vxCellSame(f, n, cols[k], r, int(ix[r])), label+": cell value")
+		}
+	}
+}
+
+func vxIota(n int) []uint32 {
+	ix := make([]uint32, n)
+	for k := range ix {
+		ix[k] = uint32(k)
+	}
+	return ix
+}
+
+func (c vxCol) len() int {
+	switch c.typ {
+	case "int":
+		return len(c.i)
+	case "float":
+		return len(c.f)
+	case "bool":
+		return len(c.b)
+	}
+	return len(c.s)
+}
+
+// vxMakeColLite is vxMakeCol with few shape forks: strings are 1 symbolic byte,
+// only cell 0 may be null; enum cells are a fork-free symbolic choice among the
+// first two declared values ("b","c"), only cell 0 may be null.
+func vxMakeColLite(typ string, P int) vxCol {
+	if typ != "string" && typ != "enum" {
+		return vxMakeCol(typ, P, 0)
+	}
+	c := vxCol{typ: typ, s: make([]string, P), null: make([]bool, P)}
+	for k := range c.s {
+		c.s[k] = vx.Str(1)
+		if typ == "enum" {
+			vx.Assume(vx.Or(c.s[k] == "b", c.s[k] == "c"))
+		}
+		if k == 0 && vx.Bool() {
+			c.null[k] = true
+		}
+	}
+	return c
 }
